@@ -1,5 +1,6 @@
 """C06 / C03: the real key builders of TapeRecorder."""
 from driver_common import main
+from lib import pyvals as pv
 from lib.pyvals import to_py, from_py
 from playback.tape_recorder import TapeRecorder, CapturedArg
 
@@ -20,46 +21,248 @@ def key_for(alias, cap, static, args, kwargs):
         return {"key": None, "err": type(ex).__name__}
 
 
+def mutate(v, mode):
+    """What an intercepted function may do to the arguments it was given: change, in place, every mutable container
+    reachable from v (grow: one more element / member / attribute; drain: emptied; edit: one element replaced)."""
+    if isinstance(v, tuple):
+        for x in v:
+            mutate(x, mode)
+    elif isinstance(v, list):
+        for x in v:
+            mutate(x, mode)
+        if mode == "grow":
+            v.append("MUT")
+        elif mode == "drain":
+            del v[:]
+        elif v:
+            v[0] = "MUT"
+    elif isinstance(v, set):
+        if mode == "drain":
+            v.clear()
+        else:
+            v.add("MUT")
+    elif isinstance(v, dict) or isinstance(v, pv.Pt):
+        d = v if isinstance(v, dict) else v.__dict__
+        for x in list(d.values()):
+            mutate(x, mode)
+        if mode == "grow":
+            d["zz_mut"] = 1
+        elif mode == "drain":
+            d.clear()
+        elif d:
+            d[next(iter(d))] = "MUT"
+
+
 def key_via_decorator(case):
-    """The key under which the real decorator stores the call in a real recording."""
+    """The key under which the real decorator stores the call in a real recording, and what the same call (made with
+    fresh, structurally equal arguments) receives when that recording is played.  case["body"] says what the intercepted
+    function does: nothing, or change its arguments in place (mode) and/or raise."""
     from playback.tape_cassettes.in_memory.in_memory_tape_cassette import InMemoryTapeCassette
+    from playback.exceptions import RecordingKeyError, InputInterceptionKeyCreationError
     cas = InMemoryTapeCassette()
     rec = TapeRecorder(cas)
     rec.enable_recording()
     alias, cap, static = case["alias"], cap_of(case["cap"]), case["static"]
-    args = [to_py(x) for x in case["args"]]
-    kw = {k: to_py(v) for k, v in case["kwargs"]}
+    body = case.get("body") or {}
+    cur = {}
+
+    def fresh():
+        cur["args"] = [to_py(x) for x in case["args"]]
+        cur["kw"] = {k: to_py(v) for k, v in case["kwargs"]}
+    fresh()
     saved = []
+    live = []
     orig_save = cas._save_recording
 
     def spy_save(recording):
-        saved.append(list(recording.get_all_keys()))
+        saved.append((recording.id, list(recording.get_all_keys())))
         return orig_save(recording)
     cas._save_recording = spy_save
+
+    def the_body(a, k):
+        live.append(1)
+        if body.get("mode"):
+            mutate(a, body["mode"])
+            mutate(tuple(k.values()), body["mode"])
+        if body.get("raise"):
+            raise pv.CustomError("boom")
+        return "R"
 
     class Svc(object):
         if static:
             @staticmethod
             @rec.static_intercept_input(alias, capture_args=cap)
             def f(*a, **k):
-                return 1
+                return the_body(a, k)
         else:
             @rec.intercept_input(alias, capture_args=cap)
             def f(self, *a, **k):
-                return 1
+                return the_body(a, k)
+
+    def call():
+        if static:
+            return Svc.f(*cur["args"], **cur["kw"])
+        return Svc().f(*cur["args"][1:], **cur["kw"])
 
     class Op(object):
         @rec.operation()
         def execute(self):
-            if static:
-                return Svc.f(*args, **kw)
-            return Svc().f(*args[1:], **kw)
+            return call()
 
-    Op().execute()
+    try:
+        Op().execute()
+    except pv.CustomError:
+        if not body.get("raise"):
+            raise
     if not saved:
         return {"dec_key": None, "dec_saved": False}
-    ks = [k for k in saved[0] if k.startswith('input:')]
-    return {"dec_key": ks[0] if ks else None, "dec_saved": True}
+    ks = [k for k in saved[0][1] if k.startswith('input:')]
+    out = {"dec_key": ks[0] if ks else None, "dec_saved": True, "dec_nkeys": len(ks)}
+    # replay: the same call, arguments built afresh (the values they had when the recorded call was made)
+    fresh()
+    del live[:]
+    got = []
+
+    def playback_function(_recording):
+        try:
+            got.append(["value", call()])
+        except pv.CustomError:
+            got.append(["raised", "CustomError"])
+        except RecordingKeyError:
+            got.append(["miss", "RecordingKeyError"])
+        except InputInterceptionKeyCreationError:
+            got.append(["keyerr", "InputInterceptionKeyCreationError"])
+    rec.play(saved[0][0], playback_function)
+    out["replay"] = got[0] if got else None
+    out["replay_live"] = len(live)
+    return out
+
+
+def run_threads(case):
+    """case["conc"]: one operation whose worker threads call the intercepted input concurrently; every call passes the
+    SAME argument objects except for one int (the first real argument), which is the ordinal of the call.  Reports how the
+    input keys of that recording, and what each call receives when the recording is played by the same threads, differ
+    from the keys the key builder gives for the same calls one after the other."""
+    import sys
+    import threading
+    from playback.tape_cassettes.in_memory.in_memory_tape_cassette import InMemoryTapeCassette
+    conc = case["conc"]
+    n, m = conc["threads"], conc["calls"]
+    alias, cap, static = case["alias"], cap_of(case["cap"]), case["static"]
+    shared = [to_py(x) for x in case["args"]]
+    kw = {k: to_py(v) for k, v in case["kwargs"]}
+    vary = conc.get("vary_kw") or (0 if static else 1)     # the ordinal: a keyword, or the first real positional argument
+
+    def call_args(s):
+        a, k = list(shared), dict(kw)
+        if isinstance(vary, int):
+            a[vary] = s
+        else:
+            k[vary] = s
+        return a, k
+
+    def seq_key(s):
+        a, k = call_args(s)
+        return TapeRecorder._input_interception_key(alias, cap, static, *a, **k)
+    expected = {}
+    for s in range(n * m):
+        expected.setdefault(seq_key(s), s)
+
+    cas = InMemoryTapeCassette()
+    rec = TapeRecorder(cas)
+    rec.enable_recording()
+    saved = []
+    live = []
+    orig_save = cas._save_recording
+
+    def spy_save(recording):
+        saved.append((recording.id, list(recording.get_all_keys())))
+        return orig_save(recording)
+    cas._save_recording = spy_save
+
+    def the_body(a, k):
+        live.append(1)
+        return "R%d" % (a[0] if isinstance(vary, int) else k[vary])
+
+    class Svc(object):
+        if static:
+            @staticmethod
+            @rec.static_intercept_input(alias, capture_args=cap)
+            def f(*a, **k):
+                return the_body(a, k)
+        else:
+            @rec.intercept_input(alias, capture_args=cap)
+            def f(self, *a, **k):
+                return the_body(a, k)
+
+    def call(s):
+        a, k = call_args(s)
+        if static:
+            return Svc.f(*a, **k)
+        return Svc().f(*a[1:], **k)
+
+    results, errors = {}, []
+
+    def fan_out():
+        barrier = threading.Barrier(n)
+
+        def gate():
+            try:
+                barrier.wait(0.5)
+            except threading.BrokenBarrierError:
+                pass
+
+        def work(w):
+            for i in range(m):
+                s = w * m + i
+                try:
+                    results[s] = call(s)
+                except Exception as ex:     # noqa
+                    errors.append("%s: %s" % (type(ex).__name__, str(ex)[:200]))
+        threads = [threading.Thread(target=work, args=(w,)) for w in range(n)]
+        old = sys.getswitchinterval()
+        pv.GATE_HOOK = gate if conc.get("gate") else None
+        sys.setswitchinterval(1e-5)
+        try:
+            for t in threads:
+                t.start()
+            for t in threads:
+                t.join()
+        finally:
+            sys.setswitchinterval(old)
+            pv.GATE_HOOK = None
+
+    class Op(object):
+        @rec.operation()
+        def execute(self):
+            fan_out()
+
+    Op().execute()
+    out = {"n_calls": n * m, "n_expected": len(expected), "rec_errors": sorted(set(errors))[:3], "saved": bool(saved)}
+    if not saved:
+        return out
+    stored = [k for k in saved[0][1] if k.startswith('input:')]
+    out["missing"] = sorted(k for k in expected if k not in stored)[:3]
+    out["n_missing"] = sum(1 for k in expected if k not in stored)
+    out["extra"] = sorted(k for k in stored if k not in expected)[:3]
+    out["n_extra"] = sum(1 for k in stored if k not in expected)
+    # replay by the same threads: every call receives what was recorded for a call with its key
+    results.clear()
+    del errors[:]
+    del live[:]
+    rec.play(saved[0][0], lambda _r: fan_out())
+    out["replay_errors"] = sorted(set(errors))[:3]
+    out["replay_live"] = len(live)
+    out["replay_answered"] = len(results)
+    # a call may only receive a value recorded for a call with the same key (the last one recorded wins)
+    key_of = {s: seq_key(s) for s in range(n * m)}
+    allowed = {}
+    for s, k in key_of.items():
+        allowed.setdefault(k, set()).add("R%d" % s)
+    wrong = [[s, results[s]] for s in sorted(results) if results[s] not in allowed[key_of[s]]]
+    out["replay_wrong"] = wrong[:3]
+    out["n_replay_wrong"] = len(wrong)
+    return out
 
 
 def run_c06(case):
@@ -69,6 +272,8 @@ def run_c06(case):
             out.update(key_via_decorator(case))
         except Exception as ex:
             out.update({"dec_key": None, "dec_err": "%s: %s" % (type(ex).__name__, ex)})
+    if case.get("conc"):
+        out["conc"] = run_threads(case)
     out["variants"] = [key_for(case["alias"], case["cap"], case["static"], v["args"], v["kwargs"]).get("key")
                        for v in case.get("variants", [])]
     return out
